@@ -11,6 +11,9 @@ structure St where
   last : List Op := []
   lastCommon : Labels := []
   unrepaired : Bool := false
+  /-- batches of the concurrent step being collected: (common labels, operations, map order) -/
+  par : List (Labels × List Op × List Nat) := []
+  lastPar : List (Labels × List Op) := []
 
 def parseLabels (s : String) : Option Labels :=
   if s == "-" || s == "" then some []
@@ -25,8 +28,9 @@ def optInt (key : String) (toks : List String) : Option (Option Int) :=
   | some "-" => some none
   | some v => (int? v).map some
 
+/-- a label with an empty value (id 0) is not shown: for prometheus it is the same as no label. -/
 def showLabels (l : Labels) : String :=
-  String.intercalate "," (l.map fun (k, v) => s!"{k}:{v}")
+  String.intercalate "," ((l.filter (·.2 != 0)).map fun (k, v) => s!"{k}:{v}")
 
 def showSeries (n : Nat) (l : Labels) (v : Int) (c : Nat) : String := s!"{n}\{{showLabels l}}={v}/{c}"
 
@@ -41,6 +45,26 @@ def dumpModel (st : State) : String :=
 
 def dumpRef (ref : List Spec.RSeries) : String :=
   showDump (ref.map fun e => showSeries e.name e.labels e.val e.cnt)
+
+/-- all orders in which a list can be arranged (with the positions kept for the per-call results). -/
+def perms {α : Type} : List α → List (List α)
+  | [] => [[]]
+  | x :: xs => (perms xs).flatMap fun p =>
+      (List.range (p.length + 1)).map fun i => p.take i ++ [x] ++ p.drop i
+
+def showErrs (l : List Bool) : String :=
+  String.intercalate "," (l.map fun ok => if ok then "0" else "1")
+
+/-- the reference registry taken through the batches in one order: the final registry and, per
+batch index, whether the call succeeded. -/
+def refLinear (ref : List Spec.RSeries) (bs : List (Nat × Labels × List Op)) :
+    List Spec.RSeries × List (Nat × Bool) :=
+  bs.foldl (fun (acc : List Spec.RSeries × List (Nat × Bool)) b =>
+    let (r', ok) := Spec.applyBatch acc.1 b.2.1 b.2.2
+    (r', acc.2 ++ [(b.1, ok)])) (ref, [])
+
+def errsByIndex (n : Nat) (res : List (Nat × Bool)) : List Bool :=
+  (List.range n).map fun i => (res.lookup i).getD false
 
 def step (st : St) (toks : List String) : St × String :=
   match toks with
@@ -62,6 +86,34 @@ def step (st : St) (toks : List String) : St × String :=
       ({ st with m := m', pending := [], last := st.pending, lastCommon := common },
         s!"err={if ok then 0 else 1} {dumpModel m'}")
     | _, _, _ => (st, "bad-op")
+  | "pbatch" :: rest =>
+    match (kv? "hooklabel" rest).bind String.toNat?, (kv? "hook" rest).bind String.toNat?,
+          (kv? "order" rest).bind natList? with
+    | some hl, some h, some order =>
+      ({ st with par := st.par ++ [([(hl, h)], st.pending, order)], pending := [] }, "ok")
+    | _, _, _ => (st, "bad-op")
+  | ["psend"] =>
+    -- the code-shaped model, calls taken one after the other in the listed order
+    let (m', oks) := st.par.foldl (fun (acc : State × List Bool) b =>
+      let (m', ok) := sendBatch acc.1 b.1 b.2.1 b.2.2
+      (m', acc.2 ++ [ok])) (st.m, [])
+    ({ st with m := m', par := [], lastPar := st.par.map fun b => (b.1, b.2.1) },
+      s!"errs={showErrs oks} {dumpModel m'}")
+  | ["oracle", "psend", errs, dump] =>
+    -- concurrent calls: SOME linearisation of the batches through the reference registry must show
+    -- exactly what the scrape showed after all calls returned, with these return values
+    let n := st.lastPar.length
+    let idx := (List.range n).zip st.lastPar
+    let cands := (perms idx).map fun p =>
+      let (r', res) := refLinear st.ref p
+      (r', s!"errs={showErrs (errsByIndex n res)} dump={dumpRef r'}")
+    let got := s!"{errs} {dump}"
+    match cands.find? (fun c => c.2 == got) with
+    | some c => ({ st with ref := c.1 }, "true")
+    | none =>
+      match cands with
+      | c :: _ => ({ st with ref := c.1 }, s!"false no-linearisation-shows-this e.g. want {c.2}")
+      | [] => (st, "bad-op")
   | ["oracle", "send", err, dump] =>
     -- the reference registry (the property) against what the implementation's scrape showed
     let (ref', ok) := Spec.applyBatch st.ref st.lastCommon st.last
